@@ -568,6 +568,8 @@ class Interp:
                             val = ('c', 'true')
                         elif segs[0][1] == 'one':
                             val = ('c', 'false')
+                        else:
+                            val = ('isempty', pkey(tgt))
                     elif m == 'len':
                         pass
                     elif m == 'pop_front':
@@ -752,9 +754,11 @@ class Interp:
         if d and d[0] == 'same':
             st[d[1]] = ('c', txt)
         if d and d[0] == 'isempty' and truth:
-            st[d[1]] = ('e',)
+            cur = st.get(d[1])
+            st[d[1]] = ('q', ()) if (cur and cur[0] == 'q') else ('e',)
         if d and d[0] == 'isnonempty' and not truth:
-            st[d[1]] = ('e',)
+            cur = st.get(d[1])
+            st[d[1]] = ('q', ()) if (cur and cur[0] == 'q') else ('e',)
         if d and d[0] == 'isv':
             key, variant, sense = d[1], d[2], d[3]
             is_variant = (truth == sense)
